@@ -75,6 +75,8 @@ def run_case(case):
         tail = resps[len(obs.calls) :]
         if not tail or tail[0].status != last.codes[0]:
             v.append((f"wrong-refusal-code:{last.codes[0]}", f"expected {last.codes[0]} ({last.reason}), got {[r.status for r in tail]}"))
+    if case["kind"] == "expect-too-large" and b"100 Continue" in obs.wire:
+        v.append(("interim-before-refusal", "a request refused at the end of its header block (declared body over the limit) was first sent '100 Continue'"))
     # consumption bound: within one read of crossing the limit
     consumed = len(stream) - len(c.sock.inq)
     bound = case.get("consume_bound")
